@@ -405,14 +405,15 @@ Section Sessions.
     assert (Hg := get_revision_no_table c). rewrite Hcur in Hg. specialize (Hg Hs).
     destruct ss as [|s0 rest]; [contradiction|].
     destruct (migrate_todo (s0 :: rest) c _ _ _ s0 rest Hg eq_refl) as [M1 _].
+    remember (List.concat (s0 :: rest)) as l eqn:El.
     destruct (migrate (s0 :: rest) c) as [c3 tr]. simpl in M1. subst c3. simpl.
     set (c1 := init_rev_table c) in *.
     assert (Hw : work c1 = Some (set_rev (RRow None) (set_rev REmpty d))) by reflexivity.
     assert (Hd1 : disk c1 = set_rev REmpty d) by reflexivity.
-    destruct (run_stmts_intx (List.concat (s0 :: rest)) c1 _ Hw) as [Hdisk _].
-    pose proof (run_stmts_cur (List.concat (s0 :: rest)) c1) as [Hc1 _].
+    destruct (run_stmts_intx l c1 _ Hw) as [Hdisk _].
+    pose proof (run_stmts_cur l c1) as [Hc1 _].
     rewrite (ops_no_commit_disk ops _ Hc). rewrite set_revision_disk.
-    - rewrite Hdisk. exact Hd1.
+    - rewrite Hdisk. rewrite Hd1. reflexivity.
     - rewrite Hc1. simpl. discriminate.
   Qed.
 
@@ -426,5 +427,23 @@ Section Sessions.
     destruct (run_session orm ss (File d) ops) as [o f']. simpl in S. subst f'.
     destruct (history_empty_table orm ss h (set_rev REmpty d) Hne eq_refl) as [_ H].
     destruct (run_history orm ss (File (set_rev REmpty d)) h) as [os f'']. exact H.
+  Qed.
+
+  (* PARTIAL fixed point, complete form: first session commits => stamped; afterwards every session
+     (any operations) executes nothing and leaves schema and revision untouched *)
+  Lemma commit_then_fixpoint (orm : schema) (ss : list step) (d : db) (ops : list op) (h : list (list op)) :
+    ids_distinct ss -> revs_distinct ss -> ss <> [] -> d_rev d <> REmpty -> In OpCommit ops ->
+    exists d1, snd (run_session orm ss (File d) ops) = File d1
+      /\ d_rev d1 = RRow (Some (rev_id ss))
+      /\ d_schema d1 = d_schema (s_open (fst (run_session orm ss (File d) ops)))
+      /\ Forall (fun o => s_trace o = [ESelectRev true] /\ sr (s_open o) = sr d1 /\ sr (s_end o) = sr d1 /\ sr (s_disk o) = sr d1)
+                (fst (run_history orm ss (File d1) h))
+      /\ exists d2, snd (run_history orm ss (File d1) h) = File d2 /\ sr d2 = sr d1.
+  Proof.
+    intros Hi Hr Hne Hemp Hc.
+    pose proof (session_commit_stamps orm ss d ops Hi Hr Hne Hemp Hc) as S.
+    destruct (run_session orm ss (File d) ops) as [o f']. destruct S as [d1 [-> [S1 S2]]].
+    exists d1. simpl. split; [reflexivity|]. split; [exact S1|]. split; [exact S2|].
+    apply history_current; assumption.
   Qed.
 End Sessions.
